@@ -104,18 +104,44 @@ Example C11_headers_examples :
   names_distinct_ci [("content-type", "a"); ("X-A", "1")] = true.
 Proof. vm_compute. repeat split. Qed.
 
-(* ---- Upload anywhere => multipart: refuted for a model below a plain dict (finding
-   C11-model-under-dict): the request is never built, PydanticSerializationError escapes ---- *)
-Definition C11_upload_anywhere_full : Prop := forall url q o vars h t,
-  forallb (fun kv => is_unset (snd kv) || dumped_ok (snd kv)) vars = true ->   (* no UNSET below the top *)
-  build_request url (mk_call q o (Some vars) h t) <> RError.
-Theorem C11_upload_anywhere_refuted : ~ C11_upload_anywhere_full.
-Proof.
-  intro H.
-  apply (H "u" "q" None [("w", VDict [("m", VModel [(mk_mfield "file" None true, VUpload 0)])])] None None);
-    vm_compute; reflexivity.
-Qed.
-Print Assumptions C11_upload_anywhere_refuted.
+(* ---- Upload anywhere in the variables => multipart (after /repo dd85cf5; finding
+   C11-model-under-dict fixed, refutation removed).  For every call whose variables hold UNSET only
+   as top-level values (vars_ok):
+   * conversion loses no Upload: the uploads separate_files reaches in the converted tree ct are the
+     Upload objects anywhere in the caller's variables (lists, dicts, set fields of models), in order;
+   * a request is always built (never RError); it is JSON iff there is no Upload at all, otherwise
+     multipart whose operations field is the encoding of null_uploads ct (every file position None:
+     C11_nulled_exact / C11_upload_positions_null), whose map is expected_map (entry i = every path of
+     file i: C11_map_entries, C11_map_lists_exactly_upload_positions) and whose file parts are the
+     distinct Uploads, each once (NoDup, same set). ---- *)
+Definition C11_upload_anywhere_full : Prop := forall url q o vars h t, vars_ok vars = true ->
+  let c := mk_call q o (Some vars) h t in
+  let ct := VDict (convert_dict vars) in
+  map snd (uploads_at [] ct) = all_upload_ids vars /\
+  exists files fmap vj,
+    separate [] ct ([], []) = (null_uploads ct, (files, fmap)) /\
+    NoDup files /\ (forall id, In id files <-> In id (all_upload_ids vars)) /\
+    fmap = expected_map (uploads_at [] ct) files 0 /\
+    to_json (null_uploads ct) = Some vj /\
+    (all_upload_ids vars = [] ->
+       build_request url c = RJson url (merge_headers (match h with Some x => x | None => [] end)) t (body_json q o vj)) /\
+    (all_upload_ids vars <> [] ->
+       build_request url c = RMultipart url h t (body_json q o vj) (fmap_json fmap) (files_parts files)).
+Theorem C11_upload_anywhere : C11_upload_anywhere_full.
+Proof. exact upload_anywhere. Qed.
+Print Assumptions C11_upload_anywhere.
+
+(* regression witness of the fixed finding: a model holding an Upload below a plain dict *)
+Example C11_model_under_dict_regression :
+  let vars := [("w", VDict [("m", VModel [(mk_mfield "file" None true, VUpload 0);
+                                           (mk_mfield "name" None false, VLeaf JNull)])])] in
+  vars_ok vars = true /\ all_upload_ids vars = [0] /\
+  build_request "u" (mk_call "q" None (Some vars) None None) =
+  RMultipart "u" None None
+    (JObj [("query", JStr "q"); ("operationName", JNull);
+           ("variables", JObj [("w", JObj [("m", JObj [("file", JNull)])])])])
+    (JObj [("0", JArr [JStr "variables.w.m.file"])]) [("0", 0)].
+Proof. vm_compute. repeat split. Qed.
 
 (* ---- the body: exactly query, operationName, variables; UNSET never sent ----
    For every call whose request is sent (JSON body or the multipart "operations" field): the body is
